@@ -164,15 +164,15 @@ def mk_spec(eng, shape):
     for i, sh in enumerate(shape):
         s1 = lambda nm, n=1, a="xy": eng.sym_str(f"{nm}{i}_", n, a)
         if sh[0] == "E":
-            flds = [(eng.sym_str(f"f{i}_{j}_", kl, "ab"), s1(f"v{j}_", 2, "x{")) for j, kl in enumerate(sh[1])]
+            flds = [(eng.sym_str(f"f{i}_{j}_", kl, "ab"), s1(f"v{j}_", 2, "x{\n")) for j, kl in enumerate(sh[1])]
             if len(sh) > 2:
                 # a field whose value is a Python int (what MonthIntMiddleware / AddEnclosing(enclose_integers=False) leave)
                 flds.append(("year", sh[2]))
             spec.append(("E", s1("t"), mk(tuple("k%d" % i) + chars(s1("k"))), flds))
         elif sh[0] == "S":
-            spec.append(("S", mk(tuple("s%d" % i) + chars(s1("k"))), s1("v", 2, "x\"")))
+            spec.append(("S", mk(tuple("s%d" % i) + chars(s1("k"))), s1("v", 2, "x\"\n")))
         elif sh[0] in "PXI":
-            spec.append((sh[0], s1("c", 2, "x ")))
+            spec.append((sh[0], s1("c", 2, "x \n")))
         else:
             spec.append((sh[0], eng.sym_str(f"r{i}_", sh[1] if len(sh) > 1 else 2, "x\n")))
     return spec
@@ -264,7 +264,7 @@ def main():
             shapes.append([a, b, c])
     chk.bounds = {"libraries": f"{len(shapes)} shapes (entries with 0..3 fields and key lengths 1..4, string, preamble, both comments, failed and duplicate blocks; singles, all pairs" + (", triples" if chk.tier == "thorough" else "") + ")",
                   "format": f"value_column symbolic 0..{COLMAX} or 'auto'; trailing_comma symbolic; indent 0..2 symbolic chars over blank/tab/'z'; separator 0..2 symbolic chars over newline/blank/'-'; default and custom parsing_failed_comment; the empty library; an unfillable parsing_failed_comment template (write raises: format must stay unchanged)"}
-    chk.assumptions = ["keys/values/texts contain no newline except failed-block raws (statement: 'own line')", "string/preamble/comment renderings are the writer's documented forms (@string{k = v}, @preamble{v}, @comment{c}, free text + newline)"]
+    chk.assumptions = ["keys contain no newline (statement: 'own line'); values, comment texts and failed-block raws may (a multi-line value is written verbatim after ' = ': its continuation lines are the value's own, not re-indented)", "string/preamble/comment renderings are the writer's documented forms (@string{k = v}, @preamble{v}, @comment{c}, free text + newline)"]
     chk.expected_vacuity = ["failed-block-rendered", "format-reused", "write-raised"]
     # the empty library, and a write that raises half-way (unfillable parsing_failed_comment template): format untouched
     for ck in ("int", "auto"):
